@@ -1,7 +1,332 @@
-import Quanto.Spec.C02
+/-
+Property C03 — scale selection: the absmax scale of a slice neither saturates nor wastes range
+(up to rounding), scales have the keepdim shape and depend only on their own slice, grouping is
+an element-preserving, invertible re-indexing whose rows / columns stay inside one slice.
+Helper lemmas: `Proofs/Tensor/Index.lean`, `Proofs/C03/{Group,Lemmas,Clamp,Examples}.lean`.
+-/
+import Proofs.C03.Group
+import Proofs.C03.Lemmas
+import Proofs.C03.Clamp
+import Proofs.C03.Examples
+
 namespace Quanto
 
-/-- placeholder until the scale-selection proofs land -/
-theorem C03_foldSlice_nil (f : FV → FV → FV) : foldSlice f [] = .fin 0 := rfl
+/-! ## B. scale selection, one slice -/
+
+/-- T1: the model's slice reduction computes the largest magnitude -/
+theorem C03_absmax_value (xs : List Rat) (h : xs ≠ []) :
+    foldSlice FV.max (xs.map fun x => FV.abs (.fin x)) = .fin (listAbsMax xs) :=
+  foldSlice_absmax xs h
+
+/-- the running maximum of the executable predicate `specC03Slice` is `listAbsMax` -/
+theorem C03_absmax_spec_agrees (xs : List Rat) :
+    xs.foldl (fun a x => ratMax a (rabs x)) 0 = listAbsMax xs :=
+  specAmax_eq xs
+
+/-- T2: the (unclamped) scale is finite and non-negative -/
+theorem C03_scale_finite (F : Fmt) (hF : WorkFmt F) (qmax : Rat) (hq : 1 ≤ qmax) (xs : List Rat)
+    (h : listAbsMax xs ≤ F.maxFin) :
+    ∃ sq, F.div (.fin (listAbsMax xs)) (.fin qmax) = .fin sq ∧ 0 ≤ sq :=
+  ⟨_, scale_finite F hF qmax hq _ (listAbsMax_nonneg xs) h⟩
+
+/-- T3 (weakened: absolute term `η·qmax·(1+2u)` instead of `η·qmax`; the statement with `η·qmax`
+is false for float16, see `C03_nonsaturating_counterexample_f16`): no element exceeds the
+representable range `sq·qmax` by more than rounding -/
+theorem C03_nonsaturating_partial (F : Fmt) (hF : WorkFmt F) (qmax : Rat) (hq : 1 ≤ qmax)
+    (xs : List Rat) (sq : Rat) (h : F.div (.fin (listAbsMax xs)) (.fin qmax) = .fin sq) :
+    ∀ x ∈ xs, |x| ≤ sq * qmax * (1 + 2 * F.u) + F.eta * qmax * (1 + 2 * F.u) := by
+  intro x hx
+  have hq0 : 0 < qmax := by linarith
+  have ha0 := listAbsMax_nonneg xs
+  have hz0 : 0 ≤ listAbsMax xs / qmax := div_nonneg ha0 hq0.le
+  have e := scale_err F hF qmax hq _ sq h
+  rw [abs_of_nonneg hz0] at e
+  have e' : listAbsMax xs / qmax - sq ≤ F.u * (listAbsMax xs / qmax) + F.eta := by
+    have := neg_le_abs (sq - listAbsMax xs / qmax); linarith
+  have hu : F.u ≤ 1 / 2 := by linarith [(u_eta_work F hF).1]
+  have := nonsat_core_loose F.u F.eta _ sq qmax F.u_nonneg hu hq0 hz0 e'
+  rw [div_mul_cancel₀ _ hq0.ne'] at this
+  exact le_trans (le_listAbsMax xs x hx) this
+
+/-- T3 in the normal range of `F` (the scale does not underflow): no absolute term at all -/
+theorem C03_nonsaturating_normal (F : Fmt) (hF : WorkFmt F) (qmax : Rat) (hq : 1 ≤ qmax)
+    (xs : List Rat) (sq : Rat) (hn : pow2 F.emin ≤ listAbsMax xs / qmax)
+    (h : F.div (.fin (listAbsMax xs)) (.fin qmax) = .fin sq) :
+    ∀ x ∈ xs, |x| ≤ sq * qmax * (1 + 2 * F.u) := by
+  intro x hx
+  have hq0 : 0 < qmax := by linarith
+  have ha0 := listAbsMax_nonneg xs
+  have hz0 : 0 ≤ listAbsMax xs / qmax := div_nonneg ha0 hq0.le
+  rw [div_fin_fin F _ qmax hq0.ne'] at h
+  have e := fl_err_normal F hF _ sq (by rw [abs_of_nonneg hz0]; exact hn) h
+  rw [abs_of_nonneg hz0] at e
+  have e' : listAbsMax xs / qmax * (1 - F.u) ≤ sq := by
+    have := neg_le_abs (sq - listAbsMax xs / qmax); linarith
+  have hu : F.u ≤ 1 / 2 := by linarith [(u_eta_work F hF).1]
+  have h2 := le_of_mul_one_sub_le F.u _ sq F.u_nonneg hu hz0 e'
+  have h3 := mul_le_mul_of_nonneg_right h2 hq0.le
+  rw [div_mul_cancel₀ _ hq0.ne'] at h3
+  calc |x| ≤ listAbsMax xs := le_listAbsMax xs x hx
+    _ ≤ sq * (1 + 2 * F.u) * qmax := h3
+    _ = _ := by ring
+
+/-- T3 for the scale actually returned by the repaired optimizer (clamped to the smallest positive
+value of `F`): the bound with the sharp absolute term `η·qmax` holds for every working format -/
+theorem C03_nonsaturating_clamped (F : Fmt) (hF : WorkFmt F) (qmax : Rat) (hq : 1 ≤ qmax)
+    (xs : List Rat) (sq : Rat) (h : absmaxOf F qmax true (.fin (listAbsMax xs)) = .fin sq) :
+    ∀ x ∈ xs, |x| ≤ sq * qmax * (1 + 2 * F.u) + F.eta * qmax := by
+  intro x hx
+  have hq0 : 0 < qmax := by linarith
+  have ha0 := listAbsMax_nonneg xs
+  have hz0 : 0 ≤ listAbsMax xs / qmax := div_nonneg ha0 hq0.le
+  rw [absmaxOf_true, div_fin_fin F _ qmax hq0.ne'] at h
+  have hm := work_maxFin_ge F hF
+  rcases hc : F.fl (.fin (listAbsMax xs / qmax)) with r | _ | _ | _
+  · rw [hc, clampMin_fin] at h
+    have hsq : sq = max r F.minPos := (FV.fin.inj h).symm
+    have h2 := clamped_tight F hF _ r hz0 hc
+    have h3 := mul_le_mul_of_nonneg_right h2 hq0.le
+    rw [div_mul_cancel₀ _ hq0.ne', ← hsq] at h3
+    calc |x| ≤ listAbsMax xs := le_listAbsMax xs x hx
+      _ ≤ (sq * (1 + 2 * F.u) + F.eta) * qmax := h3
+      _ = _ := by ring
+  · rw [hc] at h; simp [FV.clampMin] at h
+  · have := fl_ninf F hF _ hc
+    linarith
+  · exact absurd hc (fl_not_nan F hF _)
+
+/-- T4: the (unclamped) scale wastes no range, up to rounding -/
+theorem C03_fullrange (F : Fmt) (hF : WorkFmt F) (qmax : Rat) (hq : 1 ≤ qmax) (xs : List Rat)
+    (sq : Rat) (h : F.div (.fin (listAbsMax xs)) (.fin qmax) = .fin sq) :
+    sq ≤ listAbsMax xs / qmax * (1 + F.u) + F.eta := by
+  have hq0 : 0 < qmax := by linarith
+  have hz0 : 0 ≤ listAbsMax xs / qmax := div_nonneg (listAbsMax_nonneg xs) hq0.le
+  have e := scale_err F hF qmax hq _ sq h
+  rw [abs_of_nonneg hz0] at e
+  have := le_abs_self (sq - listAbsMax xs / qmax)
+  linarith
+
+/-- T5: an all-zero slice gets a null (unclamped) scale — the recorded null-scale defect -/
+theorem C03_zero_slice (F : Fmt) (hF : WorkFmt F) (qmax : Rat) (hq : 1 ≤ qmax) (xs : List Rat)
+    (h : listAbsMax xs = 0) : F.div (.fin (listAbsMax xs)) (.fin qmax) = .fin 0 := by
+  have hq0 : 0 < qmax := by linarith
+  rw [h, div_fin_fin F 0 qmax hq0.ne', zero_div]
+  exact fl_zero F hF
+
+/-- T5 for the repaired optimizer: an all-zero slice gets the smallest positive value of `F` -/
+theorem C03_zero_slice_clamped (F : Fmt) (hF : WorkFmt F) (qmax : Rat) (hq : 1 ≤ qmax)
+    (xs : List Rat) (h : listAbsMax xs = 0) :
+    absmaxOf F qmax true (.fin (listAbsMax xs)) = .fin F.minPos := by
+  rw [absmaxOf_true, C03_zero_slice F hF qmax hq xs h, clampMin_fin,
+    max_eq_right (minPos_pos F).le]
+
+/-- T12: the clamped scale is finite, at least the smallest positive value of `F`, and wastes no
+range up to rounding -/
+theorem C03_clamped_scale (F : Fmt) (hF : WorkFmt F) (qmax : Rat) (hq : 1 ≤ qmax) (a : Rat)
+    (ha0 : 0 ≤ a) (ha : a ≤ F.maxFin) :
+    ∃ sq, absmaxOf F qmax true (.fin a) = .fin sq ∧ F.minPos ≤ sq ∧
+      sq ≤ a / qmax * (1 + F.u) + 2 * F.eta := by
+  refine ⟨_, absmaxOf_fin F hF qmax hq a ha0 ha, le_max_right _ _, ?_⟩
+  have hq0 : 0 < qmax := by linarith
+  have hz0 : 0 ≤ a / qmax := div_nonneg ha0 hq0.le
+  have e := scale_err F hF qmax hq a _ (scale_finite F hF qmax hq a ha0 ha).1
+  rw [abs_of_nonneg hz0] at e
+  have h1 := le_abs_self (F.flR (a / qmax) - a / qmax)
+  have h2 := minPos_le F
+  have h3 := F.eta_nonneg
+  have h4 : 0 ≤ a / qmax * (1 + F.u) := mul_nonneg hz0 (by linarith [F.u_nonneg])
+  apply max_le <;> linarith
+
+/-- T6: the executable predicate accepts the scale selected by the repaired optimizer -/
+theorem C03_spec_slice_ok (F : Fmt) (hF : WorkFmt F) (qmax : Rat) (hq : 1 ≤ qmax) (xs : List Rat)
+    (h : listAbsMax xs ≤ F.maxFin) :
+    specC03Slice F qmax xs (absmaxOf F qmax true (.fin (listAbsMax xs))) = .ok := by
+  have ha0 := listAbsMax_nonneg xs
+  have hfin := absmaxOf_fin F hF qmax hq _ ha0 h
+  obtain ⟨sq, hsq, hmin, hfull⟩ := C03_clamped_scale F hF qmax hq _ ha0 h
+  have hsat := C03_nonsaturating_clamped F hF qmax hq xs sq hsq
+  rw [hsq]
+  apply specC03Slice_ok_of F qmax xs sq (le_trans (minPos_pos F).le hmin) _ hsat hfull
+  intro hz
+  have h0 := C03_zero_slice_clamped F hF qmax hq xs hz
+  rw [hsq] at h0
+  rw [FV.fin.inj h0]
+  exact minPos_le F
+
+/-- the statement of T3 with the sharp absolute term is false for the unclamped float16 scale: the
+quotient `a/127` with `a = 127·(2^-25 + 2^-49)` is rounded to float32 (`2^-25`, a tie) and then to
+float16 (`0`, again a tie), so the scale is null although `a/127 > η` -/
+theorem C03_nonsaturating_counterexample_f16 :
+    f16.div (.fin (listAbsMax [2130706559 / 562949953421312])) (.fin 127) = .fin 0 ∧
+      ¬ (|(2130706559 / 562949953421312 : Rat)| ≤ 0 * 127 * (1 + 2 * f16.u) + f16.eta * 127) := by
+  constructor
+  · have : listAbsMax [2130706559 / 562949953421312] = 2130706559 / 562949953421312 := by
+      norm_num [listAbsMax]
+    rw [this]
+    decide +kernel
+  · norm_num [Fmt.u, Fmt.eta, Fmt.u1, Fmt.eta1, Fmt.isHalf, f16, f32, pow2_eq]
+
+/-- the same at the level of the executable predicate (unclamped scale, float16) -/
+theorem C03_spec_slice_counterexample_f16_unclamped :
+    specC03Slice f16 127 [2130706559 / 562949953421312]
+      (f16.div (.fin (2130706559 / 562949953421312)) (.fin 127)) = .saturates := by
+  decide +kernel
+
+/-- T7: the weight optimizer divides by 127 even for a float8 qtype (`qmax = 448`): the scale is
+too large by a factor 3.5 — recorded defect -/
+theorem C03_counterexample_float8_weights :
+    specC03Slice f32 448 [1, -1, 1 / 2, 1 / 4] (f32.div (.fin 1) (.fin 127)) = .notFullRange := by
+  decide +kernel
+
+/-! ## C. tensor level: shape and locality -/
+
+/-- T8: keepdim shape of the per-axis scale, scalar shape of the per-tensor scale -/
+theorem C03_scale_shape (F : Fmt) (qmax : Rat) (t : T FV) (af c : Bool) :
+    ((absmaxScale F qmax t (some af) c).shape = keptShape t.shape af ∧
+      (absmaxScale F qmax t (some af) c).data.size = prod (keptShape t.shape af)) ∧
+    ((absmaxScale F qmax t none c).shape = [] ∧ (absmaxScale F qmax t none c).data.size = 1) := by
+  refine ⟨⟨rfl, ?_⟩, rfl, rfl⟩
+  rw [absmaxScale_some, T.size_map, reduceSlices_size]
+  rfl
+
+/-- T9: a slice reduction at key `k` only reads the positions whose key is `k` -/
+theorem C03_reduce_local (t t' : T FV) (af : Bool) (f : FV → FV → FV) (k : Nat)
+    (hs : t.shape = t'.shape) (hd : t.data.size = t'.data.size)
+    (h : ∀ n, n < t.data.size → keyAt t.shape af n = k → t.get n = t'.get n)
+    (hk : k < prod (keptShape t.shape af)) :
+    (reduceSlices t af f).get k = (reduceSlices t' af f).get k :=
+  reduceSlices_local t t' af f k hs hd h hk
+
+/-- T10: the absmax scale of slice `k` depends on slice `k` only -/
+theorem C03_absmax_local (F : Fmt) (qmax : Rat) (t t' : T FV) (af c : Bool) (k : Nat)
+    (hs : t.shape = t'.shape) (hd : t.data.size = t'.data.size)
+    (h : ∀ n, n < t.data.size → keyAt t.shape af n = k → t.get n = t'.get n)
+    (hk : k < prod (keptShape t.shape af)) :
+    (absmaxScale F qmax t (some af) c).get k = (absmaxScale F qmax t' (some af) c).get k := by
+  rw [absmaxScale_get F qmax t af c k hk, absmaxScale_get F qmax t' af c k (by rw [← hs]; exact hk)]
+  congr 2
+  apply sliceVals_congr (t.map FV.abs) (t'.map FV.abs) af k
+    (show (t.map FV.abs).shape = (t'.map FV.abs).shape from hs)
+    (by rw [T.size_map, T.size_map]; exact hd)
+  intro n hn hkey
+  rw [T.size_map] at hn
+  rw [T.get_map _ _ _ hn, T.get_map _ _ _ (by rw [← hd]; exact hn), h n hn hkey]
+
+/-- T11: scale and zero-point of the `MaxOptimizer` for slice `k` depend on slice `k` only -/
+theorem C03_maxopt_local (F : Fmt) (bits : Nat) (ext : Bool) (t t' : T FV) (af : Bool) (k : Nat)
+    (hs : t.shape = t'.shape) (hd : t.data.size = t'.data.size)
+    (h : ∀ n, n < t.data.size → keyAt t.shape af n = k → t.get n = t'.get n)
+    (hk : k < prod (keptShape t.shape af)) :
+    (maxOptimize F bits ext t af).scale.get k = (maxOptimize F bits ext t' af).scale.get k ∧
+      (maxOptimize F bits ext t af).zero.get k = (maxOptimize F bits ext t' af).zero.get k := by
+  have hk' : k < prod (keptShape t'.shape af) := by rw [← hs]; exact hk
+  rw [maxOptimize_scale_get F bits ext t af k hk, maxOptimize_scale_get F bits ext t' af k hk',
+    maxOptimize_zero_get F bits ext t af k hk, maxOptimize_zero_get F bits ext t' af k hk',
+    reduceSlices_local t t' af FV.min k hs hd h hk, reduceSlices_local t t' af FV.max k hs hd h hk]
+  exact ⟨rfl, rfl⟩
+
+/-! ## D. grouping -/
+
+/-- G1: grouping keeps the number of elements -/
+theorem C03_group_numel (shape : List Nat) (af : Bool) (gs : Nat) (s : List Nat)
+    (h : groupShape shape af gs = some s) : prod s = prod shape :=
+  groupShape_numel h
+
+/-- G2 (axis 0): both index maps are the identity (a reshape) -/
+theorem C03_group_src_first (shape : List Nat) (gs n : Nat) :
+    groupSrc shape true gs n = n ∧ ungroupSrc shape true gs n = n :=
+  ⟨groupSrc_first shape gs n, ungroupSrc_first shape gs n⟩
+
+/-- G2 (axis -1): the two index maps are mutually inverse permutations of `[0, numel)` -/
+theorem C03_group_src_inverse (shape : List Nat) (gs : Nat) (s : List Nat)
+    (h : groupShape shape false gs = some s) :
+    (∀ n, n < prod shape → groupSrc shape false gs (ungroupSrc shape false gs n) = n) ∧
+      (∀ n, n < prod shape → ungroupSrc shape false gs (groupSrc shape false gs n) = n) := by
+  obtain ⟨-, -, -, hp, -⟩ := groupShape_last_spec h
+  constructor
+  · intro n hn
+    rw [hp] at hn
+    rw [ungroupSrc_last, groupSrc_last, gSrc3_uSrc3 _ _ _ _ hn]
+  · intro n hn
+    rw [hp] at hn
+    rw [ungroupSrc_last, groupSrc_last, uSrc3_gSrc3 _ _ _ _ (by
+      rw [Nat.mul_comm _ (prod shape / shape.getLastD 0 / gs), ← Nat.mul_assoc]; exact hn)]
+
+/-- G2 (axis -1): the index maps stay inside `[0, numel)` -/
+theorem C03_group_src_lt (shape : List Nat) (gs : Nat) (s : List Nat)
+    (h : groupShape shape false gs = some s) (n : Nat) (hn : n < prod shape) :
+    groupSrc shape false gs n < prod shape ∧ ungroupSrc shape false gs n < prod shape := by
+  obtain ⟨-, -, -, hp, -⟩ := groupShape_last_spec h
+  rw [groupSrc_last, ungroupSrc_last]
+  generalize prod shape / shape.getLastD 0 / gs = G at *
+  generalize shape.getLastD 0 = D at *
+  have e : gs * D * G = G * gs * D := by rw [Nat.mul_comm _ G, ← Nat.mul_assoc]
+  constructor
+  · rw [hp]; exact gSrc3_lt G gs D n (by rw [e, ← hp]; exact hn)
+  · rw [hp, ← e]; exact uSrc3_lt G gs D n (by rw [← hp]; exact hn)
+
+/-- G3: `ungroup` undoes `group` (whole tensor, including the `shape = orig` shortcut) -/
+theorem C03_ungroup_group {α : Type} [Inhabited α] (t : T α) (af : Bool) (gs : Nat) (g : T α)
+    (hwf : t.data.size = prod t.shape) (h : group t af gs = .ok g) :
+    ungroup g af t.shape = t :=
+  ungroup_group_eq t af gs g hwf h
+
+/-- G4: row `n / gs` of the axis-0 grouped matrix lies inside one original first-axis index -/
+theorem C03_group_key_first (shape : List Nat) (gs : Nat) (s : List Nat) (n : Nat)
+    (h : groupShape shape true gs = some s) (_hn : n < prod shape) (_hne : shape ≠ []) :
+    groupSrc shape true gs n / prod shape.tail = (n / gs) / (prod shape.tail / gs) := by
+  obtain ⟨-, -, hgs, ⟨q, hq⟩, -, -⟩ := groupShape_first_spec h
+  rw [groupSrc_first, hq, Nat.mul_div_cancel_left _ hgs, Nat.div_div_eq_div_mul]
+
+/-- G5: column `n % (D·G)` of the axis -1 grouped matrix lies inside one original last-axis index -/
+theorem C03_group_key_last (shape : List Nat) (gs : Nat) (s : List Nat) (n : Nat)
+    (h : groupShape shape false gs = some s) (_hn : n < prod shape) :
+    let D := shape.getLastD 0
+    let G := prod shape / D / gs
+    groupSrc shape false gs n % D = (n % (D * G)) / G := by
+  intro D G
+  obtain ⟨hD, -, hG, -, -⟩ := groupShape_last_spec h
+  rw [groupSrc_last, gSrc3_eq]
+  show (n % (D * G) % G * (gs * D) + (n / (D * G) * D + n % (D * G) / G)) % D = n % (D * G) / G
+  have hb : n % (D * G) / G < D := by
+    rw [Nat.div_lt_iff_lt_mul hG]
+    exact Nat.mod_lt _ (Nat.mul_pos hD hG)
+  have e : n % (D * G) % G * (gs * D) + (n / (D * G) * D + n % (D * G) / G) =
+      n % (D * G) / G + (n % (D * G) % G * gs + n / (D * G)) * D := by ring
+  rw [e, Nat.add_mul_mod_self_right, Nat.mod_eq_of_lt hb]
+
+/-! ## non-vacuity -/
+
+section NonVacuity
+open C03Ex
+
+example : groupShape [4, 6] false 2 = some [2, 12] := by decide
+
+example : ∀ n, n < 24 → groupSrc [4, 6] false 2 (ungroupSrc [4, 6] false 2 n) = n :=
+  (C03_group_src_inverse [4, 6] 2 [2, 12] (by decide)).1
+
+/-- the permutation is not the identity: grouped position 1 reads original position 12 -/
+example : groupSrc [4, 6] false 2 1 = 12 := by decide
+
+example : group exT false 2 = .ok (exT.gather [2, 12] (groupSrc [4, 6] false 2)) := rfl
+
+example : ungroup (exT.gather [2, 12] (groupSrc [4, 6] false 2)) false [4, 6] = exT :=
+  C03_ungroup_group exT false 2 _ exT_wf rfl
+
+example : (exT.gather [2, 12] (groupSrc [4, 6] false 2)).get 1 = .fin 12 := by decide +kernel
+
+example : ∀ x ∈ [(1 / 3 : Rat), -2, 5 / 4],
+    |x| ≤ 129 / 8192 * 127 * (1 + 2 * f16.u) + f16.eta * 127 * (1 + 2 * f16.u) :=
+  C03_nonsaturating_partial f16 (by simp [WorkFmt]) 127 (by norm_num) _ _ exScale
+
+example : (129 / 8192 : Rat) ≤ listAbsMax [1 / 3, -2, 5 / 4] / 127 * (1 + f16.u) + f16.eta :=
+  C03_fullrange f16 (by simp [WorkFmt]) 127 (by norm_num) _ _ exScale
+
+example : specC03Slice f16 127 [1 / 3, -2, 5 / 4]
+    (absmaxOf f16 127 true (.fin (listAbsMax [1 / 3, -2, 5 / 4]))) = .ok :=
+  C03_spec_slice_ok f16 (by simp [WorkFmt]) 127 (by norm_num) _
+    (by rw [exAmax]; norm_num [Fmt.maxFin, f16, pow2_eq])
+
+end NonVacuity
 
 end Quanto
